@@ -38,10 +38,10 @@ class C14(Harness):
     MAXNEST = 2
 
     def configs(self, tier):
-        return [{'slice': s} for s in ('base', 'pif', 'nip', 'refs', 'watch')]
+        return [{'slice': s} for s in ('base', 'pif', 'nip', 'refs', 'watch', 'named')]
 
     def bounds(self, tier):
-        return {'depth': 4 if tier == 'quick' else 5, 'nesting': self.MAXNEST, 'slices': 5}
+        return {'depth': 4 if tier == 'quick' else 5, 'nesting': self.MAXNEST, 'slices': 6}
 
     def depth(self, tier, cfg):
         return 4 if tier == 'quick' else 5
@@ -55,8 +55,11 @@ class C14(Harness):
         kw = {'per_instance': False} if sl == 'pif' else {}
         ns = {'c': param.Parameter(default=objs['c0'], constant=True, **kw), 'r': param.Parameter(default=7, readonly=True, **kw),
               'p': param.Parameter(default=1), 'cn': param.Parameter(default=None, constant=True, **kw)}
+        if sl == 'named':
+            ns['name'] = param.String(default='foo')          # the class overrides the default of `name` (still constant): no name is generated
         if sl == 'refs':
             ns['cr'] = param.Parameter(default=None, constant=True, allow_refs=True)
+            ns['rr'] = param.Parameter(default=0, readonly=True, allow_refs=True)
             Src = type('Src', (param.Parameterized,), {'v': param.Parameter(default=None)})
             w['S'] = Src(v=objs['n1'])
             w['T'] = Src(v=objs['c9'])
@@ -78,9 +81,10 @@ class C14(Harness):
         if sl == 'refs':
             model['held'][0]['cr'] = None
             model['held'][1]['cr'] = 'n1'
+            model['held'][0]['rr'] = model['held'][1]['rr'] = 0
             model['link'] = [None, 'S']
             model['src'] = {'S': 'n1', 'T': 'c9'}
-        if sl == 'watch':
+        if sl in ('watch', 'refs'):
             def attempt(inst, n, tok, how):
                 i = 0 if inst is w['i'][0] else 1
                 try:
@@ -93,14 +97,19 @@ class C14(Harness):
                     w['attempts'].append((i, n, tok, e))
             hook['attempt'] = attempt
             for inst in (i0, i1):
-                inst.param.watch(lambda ev, inst=inst: hook['attempt'](inst, 'cn', 'n2', 'update'), 'c')
+                if sl == 'watch':
+                    inst.param.watch(lambda ev, inst=inst: hook['attempt'](inst, 'cn', 'n2', 'update'), 'c')
+                else:
+                    # a watcher of the linked constant tries to rebind another constant while the link delivers a new value
+                    inst.param.watch(lambda ev, inst=inst: hook['attempt'](inst, 'c', 'n2', 'set'), 'cr')
         return w, model
 
     def enabled(self, model, sl='base'):
         ops = []
         for i in (0, 1):
             if sl == 'refs':
-                ops += [['iset', i, 'cr', 'refS'], ['iset', i, 'cr', 'refT'], ['iset', i, 'cr', 'n1'], ['iset', i, 'cr', 'same'], ['iupdate', i, 'cr', 'refT']]
+                ops += [['iset', i, 'cr', 'refS'], ['iset', i, 'cr', 'refT'], ['iset', i, 'cr', 'n1'], ['iset', i, 'cr', 'same'], ['iupdate', i, 'cr', 'refT'],
+                        ['iset', i, 'rr', 'refS'], ['iset', i, 'cr', 'refskip']]
             elif sl == 'watch':
                 ops += [['pset', i], ['trigger', i, 'p'], ['trigger', i, 'c'], ['iset', i, 'c', 'n3']]
             else:
@@ -110,6 +119,8 @@ class C14(Harness):
                 ops.append(['open_edit', i])
         if sl == 'base' and len(model['edit']) < self.MAXNEST:
             ops.append(['open_edit', 'B'])          # class-level block
+        if sl == 'named':
+            ops += [['cset', 'A', 'name', 'zn'], ['cset', 'B', 'name', 'zm']]
         if sl == 'refs':
             ops += [['src', 'S', 'n2'], ['src', 'S', 'n3'], ['src', 'T', 'n2'], ['src', 'T', 'n3']]
         elif sl == 'watch':
@@ -152,13 +163,21 @@ class C14(Harness):
                     mine_open = i in model['edit']
                     other_open = bool(model['edit']) and not mine_open
                     isref = isinstance(v, str) and v.startswith('ref')
-                    if n in CONSTS:
+                    if v == 'refskip':
+                        # a reference that yields no value (Skip): outside the own block it is refused like any other reference
+                        def skipper(x):
+                            raise param.Skip()
+                        val = param.bind(skipper, w['S'].param.v)
+                        expect_exc = None if mine_open else ('EITHER' if other_open else 'TypeError')
+                    elif n == 'rr':
+                        val, expect_exc = w['S'].param.v, 'TypeError'        # read-only: never, not even inside edit_constant
+                    elif n in CONSTS:
                         target = model['src'][v[3]] if isref else v
                         same = v == 'same' or model['held'][i][n] == target
                         if isref:
                             val = w[v[3]].param.v
-                            # a reference whose current value is the held object: acceptance outside a block follows the implementation
-                            expect_exc = None if mine_open else ('EITHER' if (other_open or same) else 'TypeError')
+                            # installing a link modifies the parameter whatever the reference resolves to (also to the held object)
+                            expect_exc = None if mine_open else ('EITHER' if other_open else 'TypeError')
                         else:
                             if same:
                                 v = 'same'          # the identical object is already held
@@ -212,7 +231,11 @@ class C14(Harness):
             # ---- model update + verdict for this step
             if k in ('iset', 'iupdate'):
                 i, n = op[1], op[2]
-                if exc is None:
+                if exc is None and v == 'refskip':
+                    model['link'][i] = '?'          # the previous link is replaced by one that has not delivered anything yet
+                elif exc is None and n == 'rr':
+                    pass
+                elif exc is None:
                     if n in CONSTS:
                         if isref:
                             model['held'][i][n] = target
